@@ -7,7 +7,7 @@ ROOT = os.path.dirname(os.path.dirname(os.path.abspath(__file__)))
 P = {
  "C01": (True, "progbatch",
          "grammar-based program generation + differential PBT: generated traits compiled against the tree, proptest call sequences through opaque objects vs direct calls on a twin implementor",
-         "A seeded grammar generates batches of cglue traits (5 receiver kinds x 14 argument shapes x 15 return shapes incl. int_result, result aliases, -> Self and wrapped associated objects/groups also inside Result, &'static str / slice returns for every receiver, associated types with and without a lifetime bound; doc comments and inert attributes whose text names the generator's attributes; trait-level generics, Send/Sync supertraits, provided / #[skip_func] / #[vtbl_only] methods, extern \"C\"/unsafe methods, module-path spellings of Option/Result; nine measured-rare features are forced into every batch) and groups over them (aliases, generic members, casts, cast back through From, final forms) with stateful implementors; each batch is compiled against /repo's current tree and every admissible container kind (boxed, CBox, &mut, &, CArcSome; without context, with CArc and with a counting context) is driven by generated call sequences. After every call returns, event logs (method id + argument digest), state hash chain and instance id are compared with direct calls on a twin. A failing trait program is shrunk structurally (methods deleted while the violation key reproduces) and the reduced program is named in the replay. Exploration over a large but finite grammar.",
+         "A seeded grammar generates batches of cglue traits (5 receiver kinds x 14 argument shapes x 15 return shapes incl. int_result, result aliases, -> Self and wrapped associated objects/groups also inside Result, &'static str / slice returns for every receiver, associated types with and without a lifetime bound; doc comments and inert attributes whose text names the generator's attributes; trait-level generics, Send/Sync supertraits, provided / #[skip_func] / #[vtbl_only] methods, extern \"C\"/unsafe methods, module-path spellings of Option/Result; ten measured-rare features are forced into every batch; drivers end with two children lent by different &self methods alive together) and groups over them (aliases, generic members, casts, cast back through From, final forms) with stateful implementors; each batch is compiled against /repo's current tree and every admissible container kind (boxed, CBox, &mut, &, CArcSome; without context, with CArc and with a counting context) is driven by generated call sequences. After every call returns, event logs (method id + argument digest), state hash chain and instance id are compared with direct calls on a twin. A failing trait program is shrunk structurally (methods deleted while the violation key reproduces) and the reduced program is named in the replay. Exploration over a large but finite grammar.",
          "generated implementor driven directly is the reference; definitions rejected by rustc on the current tree are retried without by-name vtable getters, then counted as compile_rejected (NOTE on stderr)",
          "DESIGN.md 4/C01"),
  "C02": (True, "progbatch",
@@ -17,7 +17,7 @@ P = {
          "DESIGN.md 4/C02"),
  "C03": (True, "expander+lint",
          "systematic enumeration + random generation of definitions; oracle 1: rustc's improper_ctypes lints on expansions written out as source with probe declarations; oracle 2: structural check of the token stream",
-         "All single-method traits over (5 receivers x 23 argument shape classes x up to 20 return shape classes x int_result on/off) = 3.8k definitions plus random multi-method traits (generic, aliased results, wrapped returns inside Result, path spellings), hand-written alias/no_int_result/extern \"C\" definitions and groups (5.9k in all) are expanded in-process by /repo's cglue_gen used as a library. Every expansion is checked structurally (every vtable entry and wrapper extern \"C\", no slice/str/tuple/Result/non-NPO Option/Rust-ABI fn/std container in a signature, repr on every generated struct); a sample (quick: every 13th + all random; thorough: all) is written into a crate with #![deny(improper_ctypes, improper_ctypes_definitions)] together with extern \"C\" probes over the opaque Box/ArcBox/Mut/Ref/ArcRef object types and over every runtime wrapper type, and compiled; a syn-based audit requires a repr on every public runtime type; eight ABI probes (one process each) let a panic reach every hand-written extern \"C\" function of the runtime types and a generated vtable entry and require an abort, not an unwind (a Rust-ABI function behind a transmute unwinds).",
+         "All single-method traits over (5 receivers x 23 argument shape classes x up to 20 return shape classes x int_result on/off) = 3.8k definitions plus random multi-method traits (generic, aliased results, wrapped returns inside Result, path spellings), hand-written alias/no_int_result/extern \"C\" definitions and groups (5.9k in all) are expanded in-process by /repo's cglue_gen used as a library. Every expansion is checked structurally (every vtable entry and wrapper extern \"C\", no slice/str/tuple/Result/non-NPO Option/Rust-ABI fn/std container in a signature, repr on every generated struct); a sample (quick: every 13th + all random; thorough: all) is written into a crate with #![deny(improper_ctypes, improper_ctypes_definitions)] together with extern \"C\" probes over the opaque Box/ArcBox/Mut/Ref/ArcRef object types and over every runtime wrapper type and the objects of the built-in external traits (Clone, Debug, Display, AsRef, Future, Stream, Sink; features task + futures), and compiled; a syn-based audit requires a repr on every public runtime type; eight ABI probes (one process each) let a panic reach every hand-written extern \"C\" function of the runtime types and a generated vtable entry and require an abort, not an unwind (a Rust-ABI function behind a transmute unwinds).",
          "the installed stable rustc's lints are the yardstick; leaf types are restricted to what that lint accepts (no char), extern \"C\" trait methods only get C-safe user signatures",
          "DESIGN.md 4/C03"),
  "C04": (True, "progbatch+expander",
@@ -37,7 +37,7 @@ P = {
          "DESIGN.md 4/C07"),
  "C08": (True, "c08cells",
          "exhaustive enumeration of a finite matrix by a generated crate (degenerate PBT: every input is generated)",
-         "All cells (n in 1..4 optional traits incl. two aliased instantiations of a generic trait, 0..2 mandatory traits) x (2^n enabled sets) x (2^n-1 requested sets) x {check, as_ref, as_mut, cast+upcast, into} x {Box, &mut, &, Box+CArc context}: success iff requested is a subset of enabled (requests spelled with bare names and with paths; one optional pair whose order depends on case handling); after success every mandatory and requested method reaches the same instance in the right slot with the right argument; cast+upcast preserves the whole check matrix; drops and context count exact. 17k cells, exhaustive.",
+         "All cells (n in 1..4 optional traits incl. two aliased instantiations of a generic trait, 0..2 mandatory traits) x (2^n enabled sets) x (2^n-1 requested sets) x {check, as_ref, as_mut, cast+upcast, into} x {Box, &mut, &, Box+CArc context}: success iff requested is a subset of enabled (requests spelled with bare names and with paths; one optional pair whose order depends on case handling); after success every mandatory and requested method reaches the same instance in the right slot with the right argument; cast+upcast preserves the whole check matrix; drops and context count exact. 17k cells, exhaustive; plus a small matrix (1 mandatory, 3 optional traits, 840 cells) built with the library's layout_checks feature.",
          "enumeration bound n <= 4",
          "DESIGN.md 4/C08"),
  "C09": (True, "c09markers",
@@ -57,12 +57,12 @@ P = {
          "DESIGN.md 4/C11"),
  "C12": (True, "rtprops",
          "round-trip PBT + exhaustive enumeration of short byte strings against a hand-written RFC 3629 validator",
-         "Slices of four element types at every length 0..=64 and random larger ones are round-tripped through every CSliceRef/CSliceMut conversion (address, length, contents, writes landing in the original buffer); the &str decision is compared with an independent UTF-8 validator on ALL byte strings up to length 2 (quick) / 3 (thorough) and on a boundary alphabet up to length 4/5, plus random damaged text; COption/CResult/CTup conversions are checked for variant, payload identity and exactly-once drops.",
+         "Slices of four element types at every length 0..=64 and random larger ones are round-tripped through every CSliceRef/CSliceMut conversion (address, length, contents, writes landing in the original buffer); the &str decision is compared with an independent UTF-8 validator on ALL byte strings up to length 2 (quick) / 3 (thorough) and on a boundary alphabet up to length 4/5, plus random damaged text; COption/CResult/CTup conversions (also tuples with fields of mixed size and alignment) are checked for variant, payload identity and exactly-once drops.",
          "hand-written RFC 3629 validator (cross-checked against std on every input; disagreement aborts as inconclusive)",
          "DESIGN.md 4/C12"),
  "C13": (True, "rtprops+progbatch",
          "PBT over the product of result shapes with poisoned output slots and drop tokens; sweep of i32 OS codes",
-         "Library half (rtprops): every combination of payload {(), u64, droppable} x error {io raw code, io non-OS, (), fmt::Error, user IntError} x Ok/Err x both APIs with edge codes, then random; 300k (quick) / 5M (thorough) distinct OS codes through encode->decode. Oracle: 0 iff Ok, slot written exactly on Ok (token identity), byte-identical poison on Err, no read of the slot when decoding a failure, no shipped error encodes to 0, non-zero OS codes survive. Wrapped half (rtprops): hand-written int_result traits incl. plain-Result neighbours and lossy error types, raw vtable entries called with poisoned slots. Generated half (progbatch): int_result productions of the grammar (trait- and method-level, aliases, no_int_result, wrapped payloads) end to end, decoded Result compared with the direct call, and the vtable entry of every int_result method must return i32 and carry the output slot when there is a success payload; a user error type whose encoder unwinds (error destroyed once, slot untouched).",
+         "Library half (rtprops): every combination of payload {(), u64, droppable} x error {io raw code, io non-OS, (), fmt::Error, user IntError} x Ok/Err x both APIs with edge codes, then random; 300k (quick) / 5M (thorough) distinct OS codes through encode->decode. Oracle: 0 iff Ok, slot written exactly on Ok (token identity), byte-identical poison on Err, no read of the slot when decoding a failure, no shipped error encodes to 0, non-zero OS codes survive. Wrapped half (rtprops): hand-written int_result traits incl. plain-Result neighbours and lossy error types, raw vtable entries called with poisoned slots. Generated half (progbatch): int_result productions of the grammar (trait- and method-level, aliases, no_int_result, wrapped payloads) end to end, decoded Result compared with the direct call, and the vtable entry of every int_result method must return i32 and carry the output slot when there is a success payload; a user error type whose encoder unwinds (error destroyed once, slot untouched). The quick-tier case set of the library half is run a second time with the library built with `log` at trace level in the release profile.",
          "output slot poison pattern 0xA7; token registry",
          "DESIGN.md 4/C13"),
  "C14": (True, "rtprops",
@@ -77,17 +77,17 @@ P = {
          "DESIGN.md 4/C15"),
  "C16": (True, "rtprops",
          "differential PBT: values driven only through independently declared C-view structs vs the Rust API",
-         "Each carrier (CBox, CSliceBox, CArc/CArcSome, CSliceRef/Mut, CVec, OpaqueCallback, CIterator, COption, CResult, the object container {instance, context, temporary storage}) x seven element types (incl. a 64-byte-aligned one) x sizes is bit-copied into a view struct declared from the published layout and released/cloned/read/grown/invoked/advanced only through its fields and function pointers; values assembled from C fields are handed back to Rust. Effects are compared with the Rust-side model (contents, counts, drops, allocator).",
+         "Each carrier (CBox, CSliceBox, CArc/CArcSome, CSliceRef/Mut, CVec, OpaqueCallback, CIterator, COption, CResult, the object container {instance, context, temporary storage}) x seven element types (incl. a 64-byte-aligned one) x sizes is bit-copied into a view struct declared from the published layout and released/cloned/read/grown/invoked/advanced only through its fields and function pointers; values assembled from C fields are handed back to Rust (iterators made in C signal the end with various non-zero values). Effects are compared with the Rust-side model (contents, counts, drops, allocator).",
          "the view structs are the statement of the published layout (taken from the property text and examples/pregen-headers/bindings.h)",
          "DESIGN.md 4/C16"),
  "C19": (True, "rtprops",
          "stateful PBT over waker histories with a counting RawWakerVTable as the caller's waker",
-         "Histories over {clone, wake, wake_by_ref, drop} on the tree of wakers obtained inside polls of opaque Future/Stream/Sink objects, during the poll, after it returned, and on another thread, with a generated final drop order. After every op: wakes seen == wakes issued, releases <= clones, a clone is held while any foreign waker lives, and at the end clones == releases with nothing touching the original afterwards; the caller's waker hands out a distinct node per clone so that a release or use of the wrong handle is seen; final drops also happen inside a thread that unwinds.",
+         "Histories over {clone, wake, wake_by_ref, drop} on the tree of wakers obtained inside polls of opaque Future/Stream/Sink objects, during the poll, after it returned, and on another thread, with a generated final drop order. After every op: wakes seen == wakes issued, releases <= clones, a clone is held while any foreign waker lives, and at the end clones == releases with nothing touching the original afterwards; the caller's waker hands out a distinct node per clone so that a release or use of the wrong handle is seen; final drops also happen inside a thread that unwinds; a quarter of the cases use a caller waker with a null data pointer.",
          "hand-rolled RawWakerVTable over counters (no UB on over-release); threaded phases checked at quiescence",
          "DESIGN.md 4/C19"),
  "C20": (True, "c20pairs",
          "metamorphic PBT: (definition, single-edit variant) pairs compiled with the layout_checks feature and compared with compare_layouts and VerifyLayout::check",
-         "Generated traits (1-4 methods over StableAbi leaf types and the auto-wrapped shapes) and groups over them; each pair differs by exactly one edit (add/remove/rename/reorder method, argument/return type, receiver, int_result, add/remove argument, add a provided #[vtbl_only] (C-visible) or #[skip_func] (not C-visible) method, add/remove optional trait, mandatory/optional swap, an edit inside an optional member or inside the trait of an object the compared type returns, or a C-neutral edit). Both sides live in separate modules of one crate; the Box and ArcBox opaque object/group types are compared: identical or order-permuted definitions must be Valid, C-visible edits must not be Valid, a missing description must be Unknown, a type against itself Valid; VerifyLayout::check (expected type vs found description) is issued in sequences, also right after a successful check of the same description; C-neutral edits carry no requirement. The 9 ordered pairs of `and` and the strict/relaxed predicates are enumerated.",
+         "Generated traits (1-4 methods over StableAbi leaf types and the auto-wrapped shapes) and groups over them; each pair differs by exactly one edit (add/remove/rename/reorder method, argument/return type, receiver, int_result, add/remove argument, add a provided #[vtbl_only] (C-visible) or #[skip_func] (not C-visible) method, change the element type of a slice that follows an unchanged slice use, add/remove optional trait, mandatory/optional swap, an edit inside an optional member or inside the trait of an object the compared type returns, or a C-neutral edit). Both sides live in separate modules of one crate; the Box and ArcBox opaque object/group types are compared: identical or order-permuted definitions must be Valid, C-visible edits must not be Valid, a missing description must be Unknown, a type against itself Valid; VerifyLayout::check (expected type vs found description) is issued in sequences, also right after a successful check of the same description; C-neutral edits carry no requirement. The 9 ordered pairs of `and` and the strict/relaxed predicates are enumerated.",
          "the expected verdict comes from the generator's own model of the C-visible signature",
          "DESIGN.md 4/C20"),
  "C17": (True, "hdr",
@@ -102,7 +102,7 @@ P = {
          "DESIGN.md 4/C18"),
  "C05": (True, "xmod",
          "configuration sampling x stateful PBT across a dlopen boundary; differential vs host-local reference; per-module tagging allocators",
-         "One API crate is compiled separately into a plugin cdylib and a host binary by different toolchains (stable 1.95, nightly, 1.98.1, nightly-2026-08-21), optimisation levels and -Zrandomize-layout seeds, each with its own tagging global allocator; the host loads the plugin and runs generated histories (object/group calls over every wrapped shape, casts, Clone, drops in the other module, CVec made/grown/consumed on both sides, a group with three mandatory traits that each side expands for itself, CArc context and payloads cloned/dropped/transposed/round-tripped across, CBox/CSliceBox from the plugin dropped in the host, consuming calls, inserts and clones of vectors on the other side, unloading the plugin only after the last object that holds its library). Oracle: results equal host-local reference implementors, neither allocator ever sees a free/realloc of a block it did not allocate, plugin live-instance/live-block counters and the host context count return to their start values, layout digests agree. quick: 2 build pairs x 400 histories; thorough: 12 pairs over all four toolchains x 3000.",
+         "One API crate is compiled separately into a plugin cdylib and a host binary by different toolchains (stable 1.95, nightly, 1.98.1, nightly-2026-08-21), optimisation levels and -Zrandomize-layout seeds, each with its own tagging global allocator; the host loads the plugin and runs generated histories (object/group calls over every wrapped shape, casts, Clone, drops in the other module, CVec made/grown/consumed on both sides, a group with three mandatory traits that each side expands for itself, CArc context and payloads cloned/dropped/transposed/round-tripped across, CBox/CSliceBox from the plugin dropped in the host, consuming calls, inserts and clones of vectors on the other side, unloading the plugin only after the last object that holds its library). Oracle: results equal host-local reference implementors, neither allocator ever sees a free/realloc of a block it did not allocate, plugin live-instance/live-block counters and the host context count return to their start values, layout digests agree. The public types of examples/plugin-api are audited for a repr attribute. quick: 2 build pairs x 400 histories; thorough: 12 pairs over all four toolchains x 3000.",
          "four rustc versions of one LLVM family on one target; plugin and host share the API source, as the documented use does",
          "DESIGN.md 4/C05"),
 }
